@@ -614,7 +614,7 @@ pub fn run_schedule(job: &[u8]) -> Vec<u8> {
             Box::new(move || {
                 let _g = tracing_core::dispatch::set_default(&d);
                 for k in 0..n {
-                    let id = (t * 10 + k) as u32;
+                    let id = (100 + t * 10 + k) as u32;
                     tracing::event!(name: "ev", tracing::Level::INFO, id = id, y = ?YieldDebug(id), "from thread");
                 }
             }) as Box<dyn FnOnce() + Send>
@@ -638,21 +638,22 @@ pub fn run_schedule(job: &[u8]) -> Vec<u8> {
         let mut want: BTreeSet<u32> = BTreeSet::new();
         for t in 0..sc.threads {
             for k in 0..sc.events {
-                want.insert((t * 10 + k) as u32);
+                // same number of digits for every id, so that no id is a prefix of another
+                want.insert((100 + t * 10 + k) as u32);
             }
         }
         let mut seen: BTreeSet<u32> = BTreeSet::new();
         for w in &writes {
             let rec = &w.data;
             // each write is exactly one whole record of one event
-            let ids: Vec<u32> = want.iter().filter(|id| rec.contains(&format!("y{}", id)) && (rec.contains(&format!("id={}", id)) || rec.contains(&format!("\"id\":{}", id)))).cloned().collect();
-            if ids.len() != 1 || rec.matches("from thread").count() != 1 || !rec.ends_with('\n') || rec.trim_end_matches('\n').contains('\n') {
+            let ids: Vec<u32> = want.iter().filter(|id| rec.contains(&format!("y{}", id)) && (rec.contains(&format!("id={}", id)) || rec.contains(&format!("id: {}", id)) || rec.contains(&format!("\"id\":{}", id)))).cloned().collect();
+            if ids.len() != 1 || rec.matches("from thread").count() != 1 || !rec.ends_with('\n') || (sc.format != 2 && rec.trim_end_matches('\n').contains('\n')) {
                 v.push(format!("a write is not exactly one whole record: {:?}", rec));
             } else {
                 if !seen.insert(ids[0]) {
                     v.push(format!("record of event {} written twice", ids[0]));
                 }
-                if (ids[0] / 10) as u64 != w.tid {
+                if ((ids[0] - 100) / 10) as u64 != w.tid {
                     v.push(format!("record of event {} was written by thread {}", ids[0], w.tid));
                 }
             }
